@@ -170,6 +170,11 @@ def shapes(tier="quick", seed=0):
     # tags spelled like members of the generated APIClient / MockAPIClient themselves
     add("tag-member-names", doc("TMN", [op("/t1", "get", "one", ["Transport"]), op("/t2", "get", "two", ["request"]), op("/t3", "get", "three", ["Close"]),
                                         op("/t4", "get", "four", ["config"]), op("/t5", "get", "five", ["Client"]), op("/t6", "get", "six", ["base_url"])]))
+    # names that collide with what the generated code itself binds: the receiver of a method, dataclass helpers, typing names
+    add("receiver-and-helper-names", doc("RH", [op("/rh/{cls}", "get", "getRh", ["rh"], [param("cls", "path"), param("self", "query")],
+                                                   responses={"200": resp_json(ref("Helper"))})],
+                                         {"Helper": obj({"field": PRIMS["str"], "dataclass": PRIMS["str"], "tags": {"type": "array", "items": PRIMS["str"]}, "self": PRIMS["str"],
+                                                         "Optional": PRIMS["int"], "List": {"type": "array", "items": PRIMS["int"]}, "Any": PRIMS["str"]}, [])}), schemas=True)
     add("opid-collisions", doc("OC", [op("/o1", "get", "list_all", ["o"]), op("/o2", "get", "listAll", ["o"]), op("/o3", "get", "list-all", ["o"]),
                                       op("/o4", "get", "get_a_2", ["o"]), op("/o5", "get", "get_a", ["o"]), op("/o6", "get", "get-a", ["o"])]), opid_collisions=True)
     add("opid-collision-overlapping-tags", doc("OT", [op("/t1", "get", "list_all", ["Users"]), op("/t2", "get", "listAll", ["Admin", "Users"]),
@@ -288,6 +293,35 @@ def shapes(tier="quick", seed=0):
     fschemas["AllFormats"] = obj(fprops, [])
     fops.append(op("/f", "get", "getFormats", ["f"], responses={"200": resp_json(ref("AllFormats"))}))
     add("all-formats", doc("AF", fops, fschemas))
+    # optional properties with a `default` of every kind, on every kind of property schema (mutable defaults must not end up as plain dataclass defaults)
+    DEF = {"Target": obj({"a": PRIMS["str"]}), "Choice": {"type": "string", "enum": ["x", "y"]},
+           "Defaults": obj({
+               "s": dict(PRIMS["str"], default="text"), "i": dict(PRIMS["int"], default=0), "b": dict(PRIMS["bool"], default=False), "n": dict(PRIMS["num"], default=1.5),
+               "empty_list": {"type": "array", "items": PRIMS["str"], "default": []}, "list": {"type": "array", "items": PRIMS["str"], "default": ["a", "b"]},
+               "free": {"type": "object", "default": {"k": 1}}, "free_empty": {"type": "object", "default": {}},
+               "map": {"type": "object", "additionalProperties": PRIMS["int"], "default": {"k": 1}},
+               "wrapped": {"allOf": [ref("Target")], "default": {"a": "z"}}, "either": {"oneOf": [{"type": "array", "items": PRIMS["str"]}, PRIMS["str"]], "default": ["q"]},
+               "inline": dict(obj({"z": PRIMS["str"]}), default={"z": "v"}), "choice": {"allOf": [ref("Choice")], "default": "y"},
+               "nothing": {"type": "string", "nullable": True, "default": None}, "untyped": {"default": {"any": [1, 2]}}}, [])}
+    add("defaults-every-kind", doc("DK", [op("/dk", "get", "getDk", ["dk"], responses={"200": resp_json(ref("Defaults"))})], DEF), schemas=True)
+    # named primitive schemas whose names are short everyday words (Id, Type, ...), with and without description, referenced from an object and from operations
+    PA = {"Id": PRIMS["str"], "Type": PRIMS["str"], "Status": PRIMS["int"], "Name": dict(PRIMS["str"], description="a name"), "Value": PRIMS["num"], "Flag": PRIMS["bool"],
+          "Rec": obj({"id": ref("Id"), "type": ref("Type"), "status": ref("Status"), "name": ref("Name"), "value": ref("Value"), "flag": ref("Flag")}, ["id"])}
+    add("primitive-alias-names", doc("PA", [op("/pa/{id}", "get", "getRec", ["pa"], [param("id", "path", ref("Id")), param("type", "query", ref("Type"))],
+                                               responses={"200": resp_json(ref("Rec")), "201": resp_json(ref("Id"))})], PA), schemas=True)
+    # one component response referenced under different status codes, across operations and within one operation
+    SCR = doc("SCR", [op("/it", "get", "getItem", ["it"], responses={"200": {"$ref": "#/components/responses/ItemResponse"}, "404": {"$ref": "#/components/responses/Missing"}}),
+                      op("/it", "post", "createItem", ["it"], None, body_json(ref("Pet")), {"201": {"$ref": "#/components/responses/ItemResponse"}, "409": {"$ref": "#/components/responses/Missing"}}),
+                      op("/it/{id}", "put", "putItem", ["it"], [param("id", "path")], body_json(ref("Pet")),
+                         {"200": {"$ref": "#/components/responses/ItemResponse"}, "202": {"$ref": "#/components/responses/ItemResponse"}, "404": {"$ref": "#/components/responses/Missing"}})])
+    SCR["components"] = {"schemas": copy.deepcopy(BASE_SCHEMAS), "responses": {"ItemResponse": resp_json(ref("Pet")), "Missing": resp_json(ref("Err"))}}
+    add("shared-component-responses", SCR)
+    # `deprecated: true` on an operation, a parameter and a property
+    DP = doc("DP", [op("/old", "get", "getOld", ["dp"], [dict(param("q", "query"), deprecated=True)], responses={"200": resp_json(ref("Old"))}),
+                    op("/new", "get", "getNew", ["dp"], responses={"200": resp_json(ref("Old"))})],
+             {"Old": obj({"a": dict(PRIMS["str"], deprecated=True), "b": PRIMS["int"]})})
+    DP["paths"]["/old"]["get"]["deprecated"] = True
+    add("deprecated-things", DP)
     # deterministic random documents (fixed seeds, vetted on the unchanged tree): breadth over feature combinations nobody thought of
     from props import randdoc
     for rs in ([1, 2, 3, 5, 8, 13, 21, 35] if tier == "quick" else list(range(1, 61))):
